@@ -1812,18 +1812,17 @@ ws_listener_listen(void *arg)
 		return (NNG_ESTATE);
 	}
 
+	// On failure the listener keeps its server: options and a later
+	// attempt to listen (e.g. after NNG_EADDRINUSE) still need it, and
+	// ws_listener_stop releases it.
 	if ((rv = nni_http_server_add_handler(l->server, l->handler)) !=
 	    NNG_OK) {
-		nni_http_server_fini(l->server);
-		l->server = NULL;
 		nni_mtx_unlock(&l->mtx);
 		return (rv);
 	}
 
 	if ((rv = nni_http_server_start(l->server)) != NNG_OK) {
 		nni_http_server_del_handler(l->server, l->handler);
-		nni_http_server_fini(l->server);
-		l->server = NULL;
 		nni_mtx_unlock(&l->mtx);
 		return (rv);
 	}
